@@ -11,6 +11,10 @@ EXTENDS BondOpsPure, Ring, TLC, Json, IOUtils
 
 Data == JsonDeserialize(IOEnv.TRACE_FILE)
 Tr == Data.traces
+(* Two levels (harness/parallel.py): with Strict the closed forms of BondOps.tla for what the code does (intermediate     *)
+(* dimension = block-wise min(rows, columns), ascending index lists) are demanded; C11 / C12 themselves only bound the     *)
+(* intermediate dimension by the smaller matrix dimension.  Diagnostics of the strict-only clauses start with "spec: ".    *)
+Strict == IF "strict" \in DOMAIN Data THEN Data.strict ELSE TRUE
 VARIABLES tid, l
 tvars == <<tid, l>>
 Rec == Tr[tid][l]
@@ -25,9 +29,10 @@ G(x) == <<x[1], x[2]>>
 ShapeOK == /\ Len(Rec.q0) = Rec.m /\ Len(Rec.q1) = Rec.n
            /\ Len(Rec.sf) = Rec.m /\ \A r \in 1..Rec.m : Len(Rec.sf[r]) = Dl
            /\ Len(Rec.ss) = Dl /\ \A k \in 1..Dl : Len(Rec.ss[k]) = Rec.n
-DimBound == /\ Dl <= MinI(Rec.m, Rec.n)
-            /\ Dl <= PredD(Rec.q0, Rec.q1)                         \* block-wise min(rows, columns)
-            /\ \A x \in Range(Rec.qi) : CountOf(Rec.qi, x) <= PredCount(Rec.q0, Rec.q1, x)
+DimBoundP == Dl <= MinI(Rec.m, Rec.n)                               \* C11 / C12
+DimBoundS == /\ Dl <= PredD(Rec.q0, Rec.q1)                         \* BondOps closed form: block-wise min(rows, columns)
+             /\ \A x \in Range(Rec.qi) : CountOf(Rec.qi, x) <= PredCount(Rec.q0, Rec.q1, x)
+DimBound == DimBoundP /\ (Strict => DimBoundS)
 (* block sparsity of both factors under the RETURNED intermediate charges (sf / ss: 0/1 supports) *)
 SparseFactors == /\ \A r \in 1..Rec.m, k \in 1..Dl : Rec.sf[r][k] = 1 => Rec.q0[r] = Rec.qi[k]
                  /\ \A k \in 1..Dl, c \in 1..Rec.n : Rec.ss[k][c] = 1 => Rec.qi[k] = Rec.q1[c]
@@ -42,7 +47,7 @@ ExactIsometry == \A k1, k2 \in 1..Dl :
 QrOK == /\ ShapeOK /\ DimBound /\ SparseFactors /\ NumericOK
         /\ Dl >= 1
         /\ IsDummyCall => (Dl = 1 /\ \A c \in 1..Rec.n : Rec.ss[1][c] = 0)
-        /\ (~IsDummyCall /\ Rec.generic_full_rank) => Dl = PredD(Rec.q0, Rec.q1)
+        /\ (Strict /\ ~IsDummyCall /\ Rec.generic_full_rank) => Dl = PredD(Rec.q0, Rec.q1)
         /\ Rec.exact => (ExactProduct /\ ExactIsometry)
 
 (* svd: F = u, S = v (both Gaussian), sv = singular values (integers on exact instances) *)
@@ -72,7 +77,7 @@ SvdOK == /\ ShapeOK /\ SparseFactors /\ NumericOK
 RbiOK == /\ \A a, b \in DOMAIN Rec.idx : a # b => Rec.idx[a] # Rec.idx[b]
          /\ \A a \in DOMAIN Rec.idx : Rec.idx[a] \in 0..(Len(Rec.ws) - 1)
          /\ KeepAllowed(Rec.ws, [k \in DOMAIN Rec.idx |-> Rec.ws[Rec.idx[k] + 1]], Rec.tn, Rec.td)
-         /\ \A a \in 1..(Len(Rec.idx) - 1) : Rec.idx[a] < Rec.idx[a + 1]      \* np.where: ascending positions
+         /\ Strict => \A a \in 1..(Len(Rec.idx) - 1) : Rec.idx[a] < Rec.idx[a + 1]      \* np.where: ascending positions
          /\ Rec.input_unchanged
 
 (* split_mps_tensor: logged flags (mode N) + exact merge(A0, A1) = A on monomial two-site tensors *)
@@ -91,23 +96,31 @@ Diagnose ==
     IF Rec.ev = "raise" THEN Rec.exc
     ELSE IF Rec.ev = "qr" THEN
         (IF ~ShapeOK THEN "shapes of the factors / charge list inconsistent"
-         ELSE IF ~DimBound THEN "intermediate dimension exceeds the block-wise bound"
+         ELSE IF ~DimBoundP THEN "intermediate dimension exceeds the smaller matrix dimension"
+         ELSE IF ~DimBound THEN "spec: intermediate dimension exceeds the block-wise bound"
          ELSE IF ~SparseFactors THEN "a factor is not block sparse under the returned intermediate charges"
          ELSE IF IsDummyCall /\ ~(Dl = 1 /\ \A c \in 1..Rec.n : Rec.ss[1][c] = 0) THEN "dummy bond malformed"
          ELSE IF ~NumericOK THEN "residual / isometry defect / dtype out of bounds (mode N)"
          ELSE IF Rec.exact /\ ~ExactProduct THEN "Q R # A exactly"
          ELSE IF Rec.exact /\ ~ExactIsometry THEN "Q^H Q # 1 exactly"
-         ELSE "intermediate dimension below the generic rank")
+         ELSE IF Dl < 1 THEN "no intermediate state"
+         ELSE "spec: intermediate dimension differs from the block-wise rank of a generic matrix")
     ELSE IF Rec.ev = "svd" THEN
         (IF ~ShapeOK THEN "shapes inconsistent"
          ELSE IF ~SparseFactors THEN "a factor is not block sparse under the returned intermediate charges"
          ELSE IF ~Rec.input_unchanged THEN "input array modified"
+         ELSE IF ~(IsDummyCall \/ Rec.allzero \/ DimBoundP) THEN "intermediate dimension exceeds the smaller matrix dimension"
+         ELSE IF ~(IsDummyCall \/ Rec.allzero \/ DimBound) THEN "spec: intermediate dimension exceeds the block-wise bound"
          ELSE IF ~Rec.s_positive THEN "non-positive singular value returned"
          ELSE IF ~NumericOK THEN "error identity / tolerance bound / maximality / isometry out of bounds (mode N)"
          ELSE IF Rec.exact /\ ~KeepAllowed(Rec.allw, [k \in 1..Dl |-> Rec.sv[k] * Rec.sv[k]], Rec.tn, Rec.td) THEN "kept singular values are not the ones prescribed by the tolerance rule"
          ELSE IF Rec.exact /\ ~ExactSvdError THEN "|| A - u s v ||^2 # discarded weight exactly"
          ELSE "isometry / charge bookkeeping of the kept values")
-    ELSE IF Rec.ev = "rbi" THEN "retained_bond_indices: index set differs from the tolerance rule or input modified"
+    ELSE IF Rec.ev = "rbi" THEN
+        (IF ~Rec.input_unchanged THEN "retained_bond_indices: input modified"
+         ELSE IF ~KeepAllowed(Rec.ws, [k \in DOMAIN Rec.idx |-> Rec.ws[Rec.idx[k] + 1]], Rec.tn, Rec.td) THEN "retained_bond_indices: index set differs from the tolerance rule"
+         ELSE IF ~(\A a \in 1..(Len(Rec.idx) - 1) : Rec.idx[a] < Rec.idx[a + 1]) /\ (\A a, b \in DOMAIN Rec.idx : a # b => Rec.idx[a] # Rec.idx[b]) THEN "spec: retained_bond_indices: indices not in ascending order"
+         ELSE "retained_bond_indices: repeated or out-of-range index")
     ELSE IF Rec.ev = "split" THEN "split_mps_tensor: merge / sparsity / isometry / input flags"
     ELSE "unexpected event"
 
